@@ -291,6 +291,11 @@ class Ctx(object):
         else:
             self.goals.append((name, bool(b), known_region))
 
+    def hint(self, b):
+        """soft preference for counterexample/witness models (never restricts what is proved)"""
+        if self.sym:
+            self.hints.append(boolterm(b))
+
     def cover(self, name):
         self.covered.add(name)
 
